@@ -68,14 +68,14 @@ class World:
 
         self.kind = kind
         self.ctx = ctx
-        self.app = make_app(kind, ctx.tmp, app_id=f"c02{kind}")
-        self.task = self.app.task(T.add)
-        self.body_task = self.app.task(T.c02_body)
         self.defer = DeferredThreads().install()
         if kind == "mem":
-            targets = [
-                MemOrchestrator._atomic_status_transition, MemOrchestrator._get_invocation_lock,
-                MemOrchestrator._interanl_atomic_status_transition, MemOrchestrator.get_invocation_status_record,
+            # the functions that make up the exclusive read-validate-write, found by name so that a rewrite of the exclusion
+            # (another lock table, a condition variable, a context manager) is followed rather than breaking the harness
+            import re as _re
+            excl = [v for k, v in vars(MemOrchestrator).items() if _re.search(r"lock|transition|exclusive|critical", k) and (callable(v) or isinstance(v, (staticmethod, classmethod)))]
+            targets = excl + [
+                MemOrchestrator.get_invocation_status_record,
                 MemOrchestrator.get_existing_invocations, MemOrchestrator.increment_invocation_retries,
                 MemBroker.retrieve_invocation, MemBroker.route_invocation,
                 MemBlockingControl.get_blocking_invocations,
@@ -83,11 +83,17 @@ class World:
             ]
             # every Python line executed under the lock-table lookup is a yield point, also inside the container
             # implementation (a dict's setdefault is one C call; a Python-level container is not)
-            self.sched: SqlSched = LineSched(line_targets=targets, lock_modules=["pynenc.orchestrator.mem_orchestrator"],
-                                             deep_targets=[MemOrchestrator._get_invocation_lock])
+            deep = [v for k, v in vars(MemOrchestrator).items() if k == "_get_invocation_lock"]
+            self.sched: SqlSched = LineSched(line_targets=targets, lock_modules=["pynenc.orchestrator.mem_orchestrator"], deep_targets=deep)
+            # installed BEFORE the app's components are built: locks and conditions created in their constructors are cooperative too
+            self.sched.install()
+            self.app = make_app(kind, ctx.tmp, app_id=f"c02{kind}")
         else:
+            self.app = make_app(kind, ctx.tmp, app_id=f"c02{kind}")
             self.sched = SqlSched(patch=SQL_PATCH, max_steps=20000)
-        self.sched.install()
+            self.sched.install()
+        self.task = self.app.task(T.add)
+        self.body_task = self.app.task(T.c02_body)
 
     def close(self) -> None:
         self.sched.uninstall()
@@ -295,6 +301,70 @@ def independent_invocations(ctx: Ctx, w: World) -> None:
     ctx.notes[f"independent_invocation_schedules_{w.kind}"] = total
 
 
+def claims_and_a_bystander(ctx: Ctx, w: World) -> None:
+    """two runners claim X while a third thread completes a transition of ANOTHER invocation Y: the first claimer is paused after each of
+    its scheduling steps, the second then runs until it has to wait, the bystander runs to completion (whatever it signals reaches the
+    waiting claimer), then the rest.  Exactly one claim of X may succeed; Y's transition takes effect."""
+    from pynenc.invocation.status import InvocationStatus as S
+
+    total = 0
+
+    def run_one(k: int):
+        w.reset()
+        x, y = w.task(1).invocation_id, w.task(2).invocation_id
+        out: dict = {}
+
+        def claim(t: int, rid: str) -> Callable[[], None]:
+            def f() -> None:
+                try:
+                    w.app.orchestrator.set_invocation_status(x, S.PENDING, rctx(rid))
+                    out[t] = "ok"
+                except BaseException as e:  # noqa: BLE001
+                    out[t] = _classify(e)
+            return f
+
+        def bystander() -> None:
+            for st in (S.PENDING, S.RUNNING):
+                try:
+                    w.app.orchestrator.set_invocation_status(y, st, rctx("rC"))
+                    out[(2, st.value)] = "ok"
+                except BaseException as e:  # noqa: BLE001
+                    out[(2, st.value)] = _classify(e)
+
+        def chooser(step: int, runnable: list[int], current: int | None) -> int:
+            if step < k and 0 in runnable:
+                return 0
+            for c in (1, 2, 0):
+                if c in runnable:
+                    return c
+            return runnable[0]
+
+        run = w.sched.run([claim(0, "rA"), claim(1, "rB"), bystander], chooser)
+        run.meta = (out, w.status(x), w.status(y), w.history(x))  # type: ignore[attr-defined]
+        return run
+
+    n0 = len([c for c in run_one(10 ** 6).choices if c == 0])
+    for k in range(n0 + 1):
+        run = run_one(k)
+        total += 1
+        ctx.count()
+        ctx.distinct((w.kind, "claims-and-a-bystander", k))
+        out, fx, fy, hx = run.meta  # type: ignore[attr-defined]
+        rep = {"scenario": "claims-and-a-bystander", "backend": w.kind, "pause_first_claimer_after": k, "schedule": run.choices, "outcomes": sorted(map(str, out.items())), "x": fx, "y": fy}
+        if any(e is not None for e in run.errors) or run.aborted:
+            ctx.report(f"lin-error[{w.kind}]:claims-and-a-bystander", f"[{w.kind}] thread raised {run.errors} / aborted={run.aborted}", rep)
+            continue
+        winners = [r for t, r in ((0, "rA"), (1, "rB")) if out.get(t) == "ok"]
+        npend = sum(1 for s, _ in hx if s == "pending")
+        if len(winners) != 1 or fx != ("pending", winners[0]) or npend != 1:
+            ctx.report(f"double-claim-with-bystander[{w.kind}]",
+                       f"[{w.kind}] runners rA and rB claim X while a third thread moves another invocation Y to PENDING and RUNNING (rA paused after {k} of its steps, rB then run until it "
+                       f"waits, the third thread to completion): claims accepted for {winners}, X's record {fx}, history {hx} - exactly one claim may succeed", rep)
+        if fy != ("running", "rC"):
+            ctx.report(f"bystander-transition-lost[{w.kind}]", f"[{w.kind}] Y ended {fy} instead of running/rC (outcomes {sorted(map(str, out.items()))})", rep)
+    ctx.notes[f"bystander_schedules_{w.kind}"] = total
+
+
 # ------------------------------------------------------------------------------------------------
 # (b),(c) concurrent pollers / workers
 # ------------------------------------------------------------------------------------------------
@@ -434,6 +504,7 @@ def run(ctx: Ctx) -> None:
             try:
                 run_lin(ctx, w, drv)
                 independent_invocations(ctx, w)
+                claims_and_a_bystander(ctx, w)
                 run_polls(ctx, w)
                 reregistration(ctx, w)
             finally:
